@@ -364,3 +364,337 @@ def unit_step_ok(t):
         if s[0] == "rng" and s[3][0] == "lit" and s[3][1] == "INT" and s[3][2] == "1" and s[3] != ONE:
             return False
     return True
+
+
+# ----------------------------------------------------------------------------- finding keys
+K_POW = "binaryoperation_node/pow-left-nested"
+K_REL = "binaryoperation_node/relational-chained"
+K_SIGN = "unaryoperation_node/sign-left-of-tighter-binop"
+K_NOT = "unaryoperation_node/not-left-of-tighter-binop"
+K_LSIGN = "literal_node/signed-value"
+K_LNOPT = "literal_node/real-without-point"
+K_LDBL = "literal_node/real-double-no-exponent"
+K_LSGL = "literal_node/real-single-no-exponent"
+K_LEXP = "literal_node/real-default-with-exponent"
+K_LPREC = "literal_node/nonreal-single-double-precision"
+K_STEP = "range_node/unit-step-kind-dropped"
+
+
+def lit_reasons(t):
+    _, kind, val, prec = t
+    out = []
+    if kind in ("INT", "REAL") and val[:1] in ("+", "-"):
+        out.append(K_LSIGN)
+    body = val.lstrip("+-")
+    if kind == "REAL":
+        has_e = "e" in body
+        if not ("." in body or has_e):
+            out.append(K_LNOPT)
+        elif prec == "D" and not has_e:
+            out.append(K_LDBL)
+        elif prec == "S" and not has_e:
+            out.append(K_LSGL)
+        elif prec == "U" and has_e:
+            out.append(K_LEXP)
+    elif prec in ("S", "D"):
+        out.append(K_LPREC)
+    return out
+
+
+def reasons(t):
+    """Keys of every known failure shape present in t (pure shape detection, independent of the
+    rules the tree under test implements)."""
+    out = []
+    for s in subterms(t):
+        if s[0] == "bin":
+            o, l = s[1], s[2]
+            if l[0] == "bin" and LVL[l[1]] == LVL[o] and LVL[o] == 8:
+                out.append(K_POW)
+            if l[0] == "bin" and LVL[l[1]] == LVL[o] and LVL[o] == 4:
+                out.append(K_REL)
+            if l[0] == "un" and LVL[o] > PREMAX[l[1]] and not (o == "Pow" and l[1] == "Neg"):
+                out.append(K_NOT if l[1] == "Not" else K_SIGN)
+        elif s[0] == "lit":
+            out += lit_reasons(s)
+        elif s[0] == "rng":
+            st = s[3]
+            if st[0] == "lit" and st[1] == "INT" and st[2] == "1" and st != ONE:
+                out.append(K_STEP)
+    return out
+
+
+def nontrivial(t):
+    """a bracket / text-form decision is really exercised: an operation under an operation, or a
+    literal, call or indexed access under an operation"""
+    for s in subterms(t):
+        if s[0] in ("un", "bin"):
+            for c in children(s):
+                if c[0] in ("un", "bin", "lit", "call") or (c[0] == "acc" and (c[2] or c[3])):
+                    return True
+    return t[0] == "lit" and t[3] != "U"
+
+
+# ----------------------------------------------------------------------------- shrinking
+def _expr_children(t):
+    """sub-trees that are expressions on their own (can replace t)"""
+    k = t[0]
+    out = []
+    if k in ("un", "bin"):
+        out += children(t)
+    elif k == "call":
+        out += [x[2] if x[0] == "named" else x for x in t[2]]
+    elif k == "acc":
+        for x in t[2]:
+            out += [x[1], x[2], x[3]] if x[0] == "rng" else [x]
+    return [c for c in out if c[0] not in ("named", "rng")]
+
+
+def _simpler(t):
+    """t with one proper sub-expression replaced by a leaf"""
+    k = t[0]
+    leaf = V("a")
+    if k == "un":
+        if t[2] != leaf and t[2][0] != "lit":
+            yield ("un", t[1], leaf)
+        for c in _simpler(t[2]):
+            yield ("un", t[1], c)
+    elif k == "bin":
+        for i in (2, 3):
+            if t[i][0] not in ("lit",) and t[i] != leaf and t[i] != V("b"):
+                yield t[:i] + (V("a") if i == 2 else V("b"),) + t[i + 1:]
+            for c in _simpler(t[i]):
+                yield t[:i] + (c,) + t[i + 1:]
+    elif k == "call":
+        for i, x in enumerate(t[2]):
+            inner = x[2] if x[0] == "named" else x
+            for c in _simpler(inner):
+                nx = ("named", x[1], c) if x[0] == "named" else c
+                yield ("call", t[1], t[2][:i] + [nx] + t[2][i + 1:])
+    elif k == "acc":
+        for i, x in enumerate(t[2]):
+            if x[0] == "rng":
+                for j in (1, 2, 3):
+                    for c in _simpler(x[j]):
+                        yield ("acc", t[1], t[2][:i] + [x[:j] + (c,) + x[j + 1:]] + t[2][i + 1:], t[3])
+            else:
+                for c in _simpler(x):
+                    yield ("acc", t[1], t[2][:i] + [c] + t[2][i + 1:], t[3])
+
+
+def shrink(t, fails, budget=400):
+    """greedy: replace t by a failing sub-expression or by a failing simplification"""
+    cur = t
+    while budget > 0:
+        progressed = False
+        for cand in _expr_children(cur) + list(_simpler(cur)):
+            budget -= 1
+            if size(cand) < size(cur) and fails(cand):
+                cur, progressed = cand, True
+                break
+            if budget <= 0:
+                break
+        if not progressed:
+            break
+    return cur
+
+
+# ----------------------------------------------------------------------------- generators
+def depth3_all():
+    """every tree with at most two operator levels over all 3 unary / 15 binary operators
+    (distinct leaf names): 1 + 18 + 3*19 + 15*19*19 - (dups) trees"""
+    A = [V("a")] + [("un", u, V("a")) for u in UNOPS] + [("bin", o, V("a"), V("b")) for o in BINOPS]
+    B = [V("c")] + [("un", u, V("c")) for u in UNOPS] + [("bin", o, V("c"), V("d")) for o in BINOPS]
+    out = [("un", u, x) for u in UNOPS for x in A]
+    out += [("bin", o, x, y) for o in BINOPS for x in A for y in B]
+    return out
+
+
+def same_operands():
+    """left operand structurally equal to the right one (`parent.children[1] == node`)"""
+    out = []
+    for o in BINOPS:
+        for o2 in BINOPS:
+            x = ("bin", o2, V("a"), V("b"))
+            out.append(("bin", o, x, x))
+        for u in UNOPS:
+            x = ("un", u, V("a"))
+            out.append(("bin", o, x, x))
+    return out
+
+
+CHAIN_STEPS = [("un", u) for u in UNOPS] + [("binL", o) for o in BINOPS] + [("binR", o) for o in BINOPS]
+
+
+def chain(steps):
+    """operator chain: only one operand of every operator is an operator (outermost first)"""
+    names = iter(["b", "c", "d", "x", "y", "i", "j", "n"])
+    t = V("a")
+    for kind, op in reversed(steps):
+        if kind == "un":
+            t = ("un", op, t)
+        elif kind == "binL":
+            t = ("bin", op, t, V(next(names)))
+        else:
+            t = ("bin", op, V(next(names)), t)
+    return t
+
+
+def all_chains(k):
+    import itertools
+    for steps in itertools.product(CHAIN_STEPS, repeat=k):
+        yield chain(steps)
+
+
+CANON_LITS = (
+    [("lit", "INT", v, p) for v in ("0", "1", "2", "7", "42") for p in ("U", ("K", 4), ("K", 8), ("Y", "wp"))] +
+    [("lit", "REAL", v, p) for v in ("1.0", "0.5", "2.", "3.25") for p in ("U", ("K", 8), ("Y", "r_def"))] +
+    [("lit", "REAL", v, p) for v in ("1.5e3", "2.0e-2", "1e5", "4.e+1") for p in ("S", "D", ("K", 4), ("Y", "wp"))] +
+    [("lit", "BOOL", v, p) for v in ("true", "false") for p in ("U", ("K", 4))] +
+    [("lit", "CHAR", v, p) for v in ("hi", "it's", 'say "x"', "", "a b") for p in ("U", ("K", 1), ("Y", "wp"))])
+ODD_LITS = (
+    [("lit", "INT", v, p) for v in ("-1", "+2", "-30") for p in ("U", ("K", 8))] +
+    [("lit", "REAL", v, p) for v in ("-1.0", "+0.5", "-2.5e1") for p in ("U", "D", ("K", 8))] +
+    [("lit", "REAL", "3", p) for p in ("U", ("K", 8), "D")] +
+    [("lit", "REAL", v, p) for v in ("1.0", "2.") for p in ("S", "D")] +
+    [("lit", "REAL", v, "U") for v in ("1.5e3", "1e5")] +
+    [("lit", "INT", "3", p) for p in ("S", "D")] +
+    [("lit", "BOOL", "true", p) for p in ("S", "D")] + [("lit", "CHAR", "hi", p) for p in ("S", "D")])
+
+
+def literal_cases():
+    out = []
+    for l in CANON_LITS + ODD_LITS:
+        out += [l, ("bin", "Mul", V("a"), l), ("bin", "Add", l, V("b")), ("un", "Neg", l),
+                ("bin", "Pow", l, ("bin", "Sub", l, V("c")))]
+    return out
+
+
+def rand_leaf(rng, odd=0.08):
+    r = rng.random()
+    if r < 0.55:
+        return V(rng.choice(SCALARS + INTS))
+    if r < 0.55 + odd:
+        return rng.choice(ODD_LITS)
+    return rng.choice(CANON_LITS)
+
+
+def rand_index(rng, d, odd):
+    if rng.random() < 0.3:
+        r = rng.random()
+        if r < 0.55:
+            st = ONE
+        elif r < 0.6 and odd > 0:
+            st = ("lit", "INT", "1", ("K", 8))
+        elif r < 0.8:
+            st = ("lit", "INT", "2", "U")
+        else:
+            st = rand_expr(rng, min(d, 2), odd)
+        return ("rng", rand_expr(rng, min(d, 2), odd), rand_expr(rng, min(d, 2), odd), st)
+    return rand_expr(rng, d, odd)
+
+
+def rand_expr(rng, d, odd=0.08):
+    if d <= 0 or rng.random() < 0.18:
+        return rand_leaf(rng, odd)
+    r = rng.random()
+    if r < 0.22:
+        return ("un", rng.choice(UNOPS), rand_expr(rng, d - 1, odd))
+    if r < 0.78:
+        # skew the depth to one side half of the time (deep left / right spines)
+        dl, dr = (d - 1, d - 1) if rng.random() < 0.5 else rng.choice([(d - 1, max(0, d - 3)), (max(0, d - 3), d - 1)])
+        return ("bin", rng.choice(BINOPS), rand_expr(rng, dl, odd), rand_expr(rng, dr, odd))
+    if r < 0.88:
+        f = rng.choice(["ABS", "SQRT", "EXP", "NINT", "MAX", "MIN", "MOD", "SIGN", "REAL", "INT"])
+        if f in ("ABS", "SQRT", "EXP", "NINT"):
+            args = [rand_expr(rng, d - 1, odd)]
+        elif f in ("MOD", "SIGN"):
+            args = [rand_expr(rng, d - 1, odd), rand_expr(rng, d - 2, odd)]
+        elif f in ("MAX", "MIN"):
+            args = [rand_expr(rng, d - 1, odd) for _ in range(rng.choice([2, 2, 3]))]
+        else:
+            args = [rand_expr(rng, d - 1, odd)]
+            if rng.random() < 0.6:
+                args.append(("named", "kind", rng.choice([V("wp"), ("lit", "INT", "8", "U")])))
+        return ("call", f, args)
+    if r < 0.94:
+        if rng.random() < 0.5:
+            return ("acc", "arr", [rand_index(rng, d - 1, odd), rand_index(rng, d - 2, odd)], None)
+        return ("acc", "v", [rand_index(rng, d - 1, odd)], None)
+    c = rng.randrange(6)
+    if c == 0:
+        return ("acc", "f", [], ("acc", "dx", [], None))
+    if c == 1:
+        return ("acc", "f", [], ("acc", "grid", [], ("acc", "nx", [], None)))
+    if c == 2:
+        return ("acc", "f", [], ("acc", "vals", [rand_index(rng, d - 1, odd), rand_index(rng, d - 2, odd)], None))
+    if c == 3:
+        return ("acc", "f", [], ("acc", "subs", [rand_expr(rng, d - 1, odd)],
+                                 ("acc", "data", [rand_index(rng, d - 2, odd)], None)))
+    if c == 4:
+        return ("acc", "fs", [rand_expr(rng, d - 1, odd)], ("acc", "grid", [], ("acc", "data", [rand_expr(rng, d - 2, odd)], None)))
+    return ("acc", "fs", [rand_expr(rng, d - 1, odd)], ("acc", "dx", [], None))
+
+
+# ----------------------------------------------------------------------------- grammar strings
+OPTOK_TEXT = {"OPlus": "+", "OMinus": "-", "OStar": "*", "OSlash": "/", "OPow": "**", "OEq": "==", "ONe": "/=",
+              "OLt": "<", "OLe": "<=", "OGt": ">", "OGe": ">=", "ONot": ".NOT.", "OAnd": ".AND.", "OOr": ".OR.",
+              "OEqv": ".EQV.", "ONeqv": ".NEQV."}
+ALT_TEXT = {"OEq": ".eq.", "ONe": ".ne.", "OLt": ".lt.", "OLe": ".le.", "OGt": ".gt.", "OGe": ".ge.",
+            "ONot": ".not.", "OAnd": ".and.", "OOr": ".or.", "OEqv": ".eqv.", "ONeqv": ".neqv."}
+BIN_TOKS = [k for k in OPTOK_TEXT if k != "ONot"]
+G_LITS = [("1", "(TLit (mkForm CInt \"1\" false KNone))"), ("2_8", "(TLit (mkForm CInt \"2\" false (KNum 8%N)))"),
+          ("2.5", "(TLit (mkForm CReal \"2.5\" false KNone))"), ("1.0d0", "(TLit (mkForm CReal \"1.0d0\" false KNone))"),
+          (".true.", "(TLit (mkForm CBool \"true\" false KNone))")]
+
+
+def rand_tokens(rng, d):
+    """(text pieces, coq tokens) of an operator string: operand (binop operand)*; mostly valid,
+    sometimes a prefix operator directly after a binary one, doubled prefixes, chained relationals"""
+    text, toks = [], []
+
+    def emit(t, c):
+        text.append(t)
+        toks.append(c)
+
+    def op(k):
+        spell = ALT_TEXT[k] if k in ALT_TEXT and rng.random() < 0.3 else OPTOK_TEXT[k]
+        emit(spell, "(TOp %s)" % k)
+
+    def primary(dd):
+        r = rng.random()
+        if dd > 0 and r < 0.28:
+            emit("(", "TLP")
+            flat(dd - 1)
+            emit(")", "TRP")
+        elif dd > 0 and r < 0.38:
+            name, n = rng.choice([("MAX", 2), ("ABS", 1), ("arr", 2), ("v", 1)])
+            emit(name, "(TName %s)" % core.coq_str(name))
+            emit("(", "TLP")
+            for i in range(n):
+                if i:
+                    emit(",", "TComma")
+                flat(dd - 1)
+            emit(")", "TRP")
+        elif r < 0.5:
+            t, c = rng.choice(G_LITS)
+            emit(t, c)
+        else:
+            n = rng.choice(SCALARS + INTS)
+            emit(n, "(TName %s)" % core.coq_str(n))
+
+    def operand(dd):
+        r = rng.random()
+        if r < 0.3:
+            op(rng.choice(["OMinus", "OMinus", "OPlus", "ONot", "ONot"]))
+            if rng.random() < 0.08:
+                op(rng.choice(["OMinus", "ONot"]))
+        primary(dd)
+
+    def flat(dd):
+        operand(dd)
+        for _ in range(rng.choice([0, 1, 1, 2, 2, 3])):
+            op(rng.choice(BIN_TOKS))
+            operand(dd)
+
+    flat(d)
+    return " ".join(text), toks
